@@ -1,5 +1,6 @@
 import SpoxModel.Lemmas.Emit
 import SpoxModel.Model.Custom
+import SpoxModel.Props.C04
 /-!
 # C18 — user-defined operators are emitted verbatim and compose like standard ones
 
@@ -34,6 +35,15 @@ theorem custom_arity (n : NodeIn α β) (p : NodeOut α β) (h : toOnnx n = [p])
   obtain ⟨q, hq, _, _, hi, ho, _⟩ := custom_verbatim n
   rw [hq] at h; cases h
   simp [hi, ho, len]
+
+/-- **custom_identity_free.** One Var in several declared inputs changes nothing: emission of a
+    user-defined operator commutes with any (non-injective) renaming of its arguments. -/
+theorem custom_identity_free {γ : Type} (f : α → γ) (n : NodeIn α β) :
+    toOnnx { n with inputs := n.inputs.map (Arg.map f), outputs := n.outputs.map (Arg.map f) } =
+      (toOnnx n).map fun p =>
+        { opType := p.opType, domain := p.domain, inputs := p.inputs.map (Option.map f),
+          outputs := p.outputs.map (Option.map f), attrs := p.attrs } := by
+  simp [toOnnx, emitNode, emitSlotsCustom_map]
 
 /-! ## opset imports -/
 
@@ -253,6 +263,99 @@ theorem dropped_iff (check : T → V → Bool) (thook : List (String × T)) (vho
     unfold mergeValue
     rw [h1, hv, h2, hk, h3]
     simp [h4]
+
+/-! ## composition: what is inherited from the Builder theorems (C04)
+
+`Model/BuildAlg.lean` — the model of `spox._build.Builder` the C04 theorems are about — sees a node
+only through `isArg`, `inputs` (its dependencies) and `subs` (the Graphs in its attributes); it has
+no field for *what kind* of operator a node is. A program with user-defined operators is therefore a
+`BuildAlg.Prog` like any other: `KProg.erase` forgets the kinds, and
+
+* `relabel_build` — turning any non-argument node into a user-defined operator of any domain and
+  version (or back) leaves `build` — scopes, order, nested emission, error — *unchanged*;
+* `custom_composes` — the C04 theorems instantiated at a user-defined operator anywhere in the
+  program (top level, any body, any depth): it is emitted exactly once iff a requested output depends
+  on it (never otherwise), and it sits in the lowest scope enclosing all its uses.
+
+That the real `Builder` likewise does not look at the node's class is the tie (H) of this part:
+every run realises abstract programs twice — with standard operators and with user-defined ones in
+their place — and compares the Builder's decisions and the nested emission (harness/props/c18.py,
+`relabel_cases`). -/
+
+/-- what kind of operator a node is -/
+inductive NodeKind where
+  | argument
+  | standard (op : String)
+  | custom (op : String) (domain : String) (version : Nat)
+  | other (what : String)      -- inline, function, initializer, …
+  deriving Repr, DecidableEq
+
+def NodeKind.isArg : NodeKind → Bool
+  | .argument => true
+  | _ => false
+
+structure KNode where
+  kind : NodeKind
+  inputs : List Nat
+  subs : List Nat
+
+/-- a program whose nodes carry their kind -/
+structure KProg where
+  nodes : List KNode
+  graphs : List BuildAlg.PGraph
+
+/-- the Builder's view: kinds forgotten -/
+def KProg.erase (p : KProg) : BuildAlg.Prog :=
+  { nodes := p.nodes.map fun n => { isArg := n.kind.isArg, inputs := n.inputs, subs := n.subs },
+    graphs := p.graphs }
+
+/-- replace the kind of node `i` -/
+def KProg.relabel (p : KProg) (i : Nat) (k : NodeKind) : KProg :=
+  { p with nodes := p.nodes.mapIdx fun j n => if j = i then { n with kind := k } else n }
+
+theorem erase_relabel (p : KProg) (i : Nat) (k : NodeKind) (n : KNode)
+    (hn : p.nodes[i]? = some n) (hk : k.isArg = n.kind.isArg) :
+    (p.relabel i k).erase = p.erase := by
+  simp only [KProg.erase, KProg.relabel, BuildAlg.Prog.mk.injEq, and_true]
+  apply List.ext_getElem?
+  intro j
+  simp only [List.getElem?_map, List.getElem?_mapIdx]
+  cases hj : p.nodes[j]? with
+  | none => rfl
+  | some m =>
+    simp only [Option.map_some]
+    by_cases hji : j = i
+    · subst hji
+      rw [hn] at hj; cases hj
+      simp [hk]
+    · simp [hji]
+
+/-- **relabel_build.** Swapping a standard operator for a user-defined one (any name, domain,
+    version) — or the other way round — anywhere in a program does not change anything the Builder
+    computes. -/
+theorem relabel_build (p : KProg) (i : Nat) (k : NodeKind) (n : KNode)
+    (hn : p.nodes[i]? = some n) (hk : k.isArg = false) (hn' : n.kind.isArg = false) :
+    BuildAlg.build (p.relabel i k).erase = BuildAlg.build p.erase := by
+  rw [erase_relabel p i k n hn (by rw [hk, hn'])]
+
+/-- **custom_composes.** For a user-defined operator `n` at any position of any well-formed program
+    whose build succeeds: exactly one emission if some requested output depends on it, none otherwise;
+    and its scope is the lowest one enclosing every graph that uses it. -/
+theorem custom_composes (p : KProg) (hwf : BuildAlg.WF p.erase) (b : BuildAlg.Built)
+    (tr : List BuildAlg.Ev) (h : BuildAlg.build p.erase = .ok (b, tr))
+    (n : Nat) (kn : KNode) (hn : p.nodes[n]? = some kn)
+    (op dom : String) (ver : Nat) (hc : kn.kind = .custom op dom ver) :
+    (BuildAlg.Reach p.erase.adjFull (.src 0) (.node n) →
+      (BuildAlg.emitted tr).count (.node n) = 1) ∧
+    (¬ BuildAlg.Reach p.erase.adjFull (.src 0) (.node n) →
+      (BuildAlg.emitted tr).count (.node n) = 0) ∧
+    (∀ c, b.scopeOf.get (.node n) = some c →
+      BuildAlg.LowestP (BuildAlg.parent b.owner b.scopeOf)
+        (fun g => g ∈ b.graphTopo ∧ BuildAlg.Reach p.erase.adjIn (.src g) (.node n)) c) := by
+  have hna : p.erase.isArg n = false := by
+    simp [BuildAlg.Prog.isArg, KProg.erase, List.getElem?_map, hn, hc, NodeKind.isArg]
+  obtain ⟨h1, h2⟩ := C04.emitted_once p.erase hwf b tr h n hna
+  exact ⟨h1, h2, fun c hc' => C04.least_enclosing p.erase hwf b tr h (.node n) c hc'⟩
 
 /-! ## non-vacuity -/
 
